@@ -165,6 +165,9 @@ pub struct SnapResult {
     /// that holds a conflicted path; `write_path_to_store` keeps the old (tree-valued) conflict, so
     /// the file gets a file state but no tree entry (debug builds: `assert_eq!(state_paths, tree_paths)`)
     pub known_conflict_dir: bool,
+    /// known class F-C23-3: below an ignored directory `visit_tracked_files` stats the tracked path
+    /// *through* a symlinked intermediate directory and records whatever the link leads to
+    pub known_symlink_follow: bool,
 }
 pub struct UpdResult { pub pre: Pre, pub new_tree: TreeM, pub result: Result<(Disk, BTreeSet<P>, CheckoutStats), String>, pub trace: Vec<P>, pub escaped: Vec<String>,
     /// the update panicked in the known class F-C25-1 (`changed_file_states` not sorted, see notes/C25.md)
@@ -319,14 +322,20 @@ impl Env {
         let known_conflict_dir = result.as_ref().err().map(|e| e.as_str()) == Some("panic")
             && dl.keys().any(|q| in_sparse(&pre.sparse, q)
                 && pre.tree.iter().any(|(k, v)| is_strict_prefix(q, k) && matches!(v, TV::Conflict { .. })));
-        if known_enotdir || known_conflict_dir {
+        // a tracked path that is not on disk (an intermediate component is a symlink) but whose
+        // path-following stat finds a file, below an ignored directory
+        let known_symlink_follow = result.is_ok() && pre.states.iter().any(|q| in_sparse(&pre.sparse, q) && !pre.disk.contains_key(q)
+            && (1..q.len()).any(|n| matches!(pre.disk.get(&q[..n].to_vec()), Some(Ent::Link(_)))
+                && (1..n).any(|m| { let a2 = q[..m].to_vec(); pre.disk.get(&a2) == Some(&Ent::Dir) && ign_set.contains(&a2) }))
+            && std::fs::symlink_metadata(self.fs(q)).is_ok_and(|m| !m.is_dir()));
+        if known_enotdir || known_conflict_dir || known_symlink_follow {
             // the model describes the intended decision (the path is removed); the code fails instead.
             // Known finding: evaluated on the implementation only, reported by the oracle.
             out.impl_only();
         } else {
             out.case(&req, &resp);
         }
-        SnapResult { pre, ign_set, result, tree, known_enotdir, known_conflict_dir }
+        SnapResult { pre, ign_set, result, tree, known_enotdir, known_conflict_dir, known_symlink_follow }
     }
 
     fn take_trace(&self) -> (Vec<P>, Vec<String>) {
